@@ -1,5 +1,5 @@
 (* correspondence entry points for C04 *)
-From QV.Model Require Import Base Matrix Convert.
+From QV.Model Require Import Base Matrix Convert Reduce.
 Open Scope Q_scope.
 
 Inductive cin :=
@@ -40,6 +40,15 @@ Definition run_case (c : cin) : cout :=
         | KQubo, 2%nat => qubo_to_pubo m | KQubo, _ => qubo_to_puso_m m
         | KQuso, 0%nat => quso_to_qubo_m m | KQuso, 1%nat => quso_to_quso m
         | KQuso, 2%nat => quso_to_pubo_m m | KQuso, _ => quso_to_puso m
+        (* PUBO / PCBO / PUSO / PCSO objects of degree <= 2: no reduction is required, the methods only relabel / convert *)
+        | (KPubo | KPcbo), 0%nat => pubo_to_qubo m LDefault []
+        | (KPubo | KPcbo), 1%nat => pubo_to_quso m LDefault []
+        | (KPubo | KPcbo), 2%nat => pubo_to_pubo m None LDefault []
+        | (KPubo | KPcbo), _ => pubo_to_puso_m m None LDefault []
+        | (KPuso | KPcso), 0%nat => puso_to_qubo_m m LDefault []
+        | (KPuso | KPcso), 1%nat => puso_to_quso_m m LDefault []
+        | (KPuso | KPcso), 2%nat => puso_to_pubo_m m None LDefault []
+        | (KPuso | KPcso), _ => puso_to_puso_m m None LDefault []
         | _, _ => Err TypeError
         end))
   | ConvSol k t sol flag =>
